@@ -9,13 +9,13 @@
 package main
 
 import (
-	"sort"
 	"bytes"
 	"encoding/json"
 	"flag"
 	"fmt"
 	"os"
 	"path/filepath"
+	"sort"
 	"strings"
 
 	"github.com/rhysd/actionlint"
@@ -55,11 +55,11 @@ type gcomb struct {
 type gmatrix struct {
 	constExpr bool // the WHOLE matrix is one fromJSON('<constant>'): statically known, keys as in a literal
 	nest      bool // a row `nest` whose value is a nested array: any-typed first element, then references
-	expr     bool
-	rows     []string
-	rowExpr  []bool
-	incKind  int // 0 none, 1 expression, 2 list
-	include  []gcomb
+	expr      bool
+	rows      []string
+	rowExpr   []bool
+	incKind   int // 0 none, 1 expression, 2 list
+	include   []gcomb
 }
 
 type gjob struct {
@@ -311,7 +311,7 @@ func (w *gwf) oracle(rf *ref) int {
 				return 0
 			}
 		}
-		if m.nest && rf.path[0] == "nest" {
+		if m.nest && (rf.path[0] == "nest" || rf.path[0] == "objrow") {
 			return 0
 		}
 		for _, k := range m.rows {
@@ -523,15 +523,36 @@ func (w *gwf) render(r *hx.Rng) (string, []*ref) {
 					// nested array: an element of unknown type first, then references (one per line)
 					o.add("        nest:")
 					o.add("          - - ${{ fromJSON(vars.N) }}")
-					for _, n := range append(append([]string{}, namePool[:2]...), "undefined_name") {
+					// (every other reference stands inside a longer text: a value is checked whether it is
+					// one placeholder or text with placeholders)
+					for i, n := range append(append([]string{}, namePool[:2]...), "undefined_name") {
 						rf := &ref{kind: refInputs, path: []string{lower(n)}}
-						rf.line = o.add("            - ${{ inputs." + recase(r, n) + " }}")
+						if i%2 == 0 {
+							rf.line = o.add("            - ${{ inputs." + recase(r, n) + " }}")
+						} else {
+							rf.line = o.add("            - v-${{ inputs." + recase(r, n) + " }}-w")
+						}
 						refs = append(refs, rf)
 					}
-					for _, other := range append(append([]string{}, idPool[:3]...), "ghost") {
+					for i, other := range append(append([]string{}, idPool[:3]...), "ghost") {
 						rf := &ref{kind: refNeeds, job: ji, path: []string{lower(other), "result"}}
-						rf.line = o.add("            - ${{ needs." + recase(r, other) + ".result }}")
+						if i%2 == 1 {
+							rf.line = o.add("            - ${{ needs." + recase(r, other) + ".result }}")
+						} else {
+							rf.line = o.add("            - 'is ${{ needs." + recase(r, other) + ".result }}'")
+						}
 						refs = append(refs, rf)
+					}
+					// a row whose first values are mappings and whose last value has an unknown shape:
+					// nothing is known about the members of matrix.objrow
+					o.add("        objrow:")
+					if r.Chance(1, 2) {
+						o.add("          - {name: a}")
+						o.add("          - {name: b, os: c}")
+						o.add("          - ${{ fromJSON(vars.X) }}")
+					} else {
+						o.add("          - ${{ fromJSON(vars.X) }}")
+						o.add("          - {name: a}")
 					}
 				}
 				for i, k := range m.rows {
@@ -597,6 +618,13 @@ func (w *gwf) render(r *hx.Rng) (string, []*ref) {
 					} else {
 						plant(indent, fmt.Sprintf("R%d", planted), rf, "matrix")
 					}
+				}
+			}
+			if j.matrix != nil && j.matrix.nest && !j.matrix.expr {
+				// members of a row whose values are mappings and one value of unknown shape
+				for _, mem := range []string{"name", "flags"} {
+					planted++
+					plant(indent, fmt.Sprintf("R%d", planted), &ref{kind: refMatrix, job: ji, path: []string{"objrow", mem}}, "matrix")
 				}
 			}
 			// inputs / secrets
